@@ -8,6 +8,7 @@ import (
 	"context"
 	"fmt"
 	"io"
+	"math/big"
 	"sort"
 	"strings"
 
@@ -88,6 +89,7 @@ type c02Sig struct {
 	obj      hotstuff.QuorumSignature
 	term     string       // Gallina option qsig
 	contribs []c02Contrib // genuine signatures physically contained (ground truth)
+	valid    []c02Contrib // ... that the object also ATTRIBUTES to their real signer (label / bit = signer)
 	labels   []uint64     // Participants() as a list
 }
 
@@ -117,6 +119,10 @@ type c02World struct {
 	garbageN int
 	pick     int
 	keys     []hotstuff.PrivateKey
+	badPop   map[int]string // logical member -> kind of bad proof of possession (BLS)
+	rogueX   *big.Int
+	selfVi   int // verifier whose Authority was handed out last
+	sigds    map[string]uint64 // signature bytes -> name (QuorumCert.Equals granularity)
 	ids      []uint64 // actual replica id of logical replica k = ids[k-1]; ids[n] is the outsider
 	grow     *c02Grow // membership-growth mode: one long-lived Authority per cache setting
 	long     []*Authority // long-lived cache-less Authority per verifier (must behave statelessly)
@@ -171,13 +177,130 @@ func (w *c02World) id(k uint64) uint64 {
 	return 70000 + k
 }
 
+// isMember: a configured replica whose key the CURRENT verifier (w.selfVi, set by auth) can use.
+// For BLS a member whose registered proof of possession is missing or invalid contributes nothing,
+// except at that replica itself (no proof is checked for self).
 func (w *c02World) isMember(actual uint64) bool {
 	for k := 0; k < w.n; k++ {
 		if w.ids[k] == actual {
-			return true
+			return w.usableAt(k + 1)
 		}
 	}
 	return false
+}
+
+func (w *c02World) selfLogical() int {
+	if w.grow != nil {
+		return 1
+	}
+	return w.vers[w.selfVi].id
+}
+
+func (w *c02World) usableAt(logical int) bool {
+	if _, bad := w.badPop[logical]; !bad || w.scheme != crypto.NameBLS12 {
+		return true
+	}
+	return w.selfLogical() == logical
+}
+
+// usableTerm: the ids for which the current verifier obtains a public key
+func (w *c02World) usableTerm() string {
+	var ids []string
+	for k := 1; k <= w.n; k++ {
+		if w.usableAt(k) {
+			ids = append(ids, fmt.Sprint(w.ids[k-1]))
+		}
+	}
+	return "[" + strings.Join(ids, ";") + "]"
+}
+
+// vctxTerm: Gallina vctx of the current verifier
+func (w *c02World) vctxTerm() string {
+	var bad []string
+	for k := 1; k <= w.n; k++ {
+		if _, b := w.badPop[k]; b {
+			bad = append(bad, fmt.Sprint(w.ids[k-1]))
+		}
+	}
+	return fmt.Sprintf("(mkV %d [%s])", w.ids[w.selfLogical()-1], strings.Join(bad, ";"))
+}
+
+// c02BadPop, when set, makes the next world register the given logical members with a bad proof of
+// possession (BLS): "missing", "garbage" (a valid G2 point that proves nothing), "other-key" (replica
+// 1's proof), "rogue" (public key x*G1 - sum of the other members' keys, with replica 1's proof).
+var c02BadPop map[int]string
+
+const c02PopKey = "bls12-pop-bin"
+
+var c02BLSDomain = []byte("BLS_SIG_BLS12381G2_XMD:SHA-256_SSWU_RO_POP_")
+
+func (w *c02World) applyBadPop() {
+	for logical, kind := range w.badPop {
+		j := logical - 1
+		md := map[string]string{}
+		for k, v := range w.infos[j].Metadata {
+			md[k] = v
+		}
+		switch kind {
+		case "missing":
+			delete(md, c02PopKey)
+		case "garbage":
+			pt, err := w.g2.HashToCurve(w.garbage(32), []byte("C02-GARBAGE-POP"))
+			if err != nil {
+				panic(err)
+			}
+			md[c02PopKey] = string(w.g2.ToCompressed(pt))
+		case "other-key":
+			md[c02PopKey] = w.infos[0].Metadata[c02PopKey]
+		case "rogue":
+			g1 := bls12.NewG1()
+			sum := g1.Zero()
+			for k := range w.infos {
+				if k == j {
+					continue
+				}
+				p, err := g1.FromCompressed(w.infos[k].PubKey.(*crypto.BLS12PublicKey).ToBytes())
+				if err != nil {
+					panic(err)
+				}
+				g1.Add(sum, sum, p)
+			}
+			w.rogueX = new(big.Int).SetBytes(w.garbage(31))
+			pk := g1.New()
+			g1.MulScalarBig(pk, g1.One(), w.rogueX)
+			g1.Sub(pk, pk, sum)
+			rogue := &crypto.BLS12PublicKey{}
+			if err := rogue.FromBytes(g1.ToCompressed(pk)); err != nil {
+				panic(err)
+			}
+			w.infos[j].PubKey = rogue
+			md[c02PopKey] = w.infos[0].Metadata[c02PopKey]
+		}
+		w.infos[j].Metadata = md
+	}
+}
+
+// forge: x*H(m) with the rogue key's x — satisfies the pairing equation for the aggregate key of ALL
+// members although nobody signed m; verifies iff the rogue member's key is used.
+func (w *c02World) forge(m c02Msg) c02Sig {
+	pt, err := w.g2.HashToCurve(m.bytes, c02BLSDomain)
+	if err != nil {
+		panic(err)
+	}
+	w.g2.MulScalarBig(pt, pt, w.rogueX)
+	var bf crypto.Bitfield
+	var lt []string
+	var labels []uint64
+	for k := 0; k < w.n; k++ {
+		bf.Add(hotstuff.ID(w.ids[k]))
+		lt = append(lt, fmt.Sprint(w.ids[k]))
+		labels = append(labels, w.ids[k])
+	}
+	obj, err := crypto.RestoreBLS12AggregateSignature(w.g2.ToCompressed(pt), bf)
+	if err != nil {
+		panic(err)
+	}
+	return c02Sig{obj: obj, term: fmt.Sprintf("(Some (QBls [%s] None))", strings.Join(lt, ";")), labels: labels}
 }
 
 type c02Grow struct{ auths map[bool]*Authority }
@@ -214,6 +337,9 @@ func c02NewWorldIDs(v *verifOut, scheme string, n int, ids []uint64) *c02World {
 			w.infos = append(w.infos, hotstuff.ReplicaInfo{ID: hotstuff.ID(w.ids[i]), PubKey: k.Public(), Metadata: cfg.ConnectionMetadata()})
 		}
 	}
+	w.badPop, c02BadPop = c02BadPop, nil
+	w.sigds = map[string]uint64{}
+	w.applyBadPop()
 	logger := logging.NewWithDest(io.Discard, "c02")
 	fetchable := map[hotstuff.Hash]*hotstuff.Block{}
 	w.chain = blockchain.New(eventloop.New(logger, 16), logger, c02NullSender{fetchable})
@@ -309,6 +435,7 @@ func (w *c02World) auth(vi int, cache, agg bool) *Authority {
 		key = "01"
 	}
 	ver := w.vers[vi]
+	w.selfVi = vi
 	return NewAuthority(ver.cfgs[key], w.chain, ver.bases[key])
 }
 
@@ -430,6 +557,7 @@ func (w *c02World) render(sp c02Spec) c02Sig {
 			case c.signer == e.label:
 				ts = append(ts, fmt.Sprintf("sg %d %s", e.label, c.msg.term()))
 				out.contribs = append(out.contribs, c)
+				out.valid = append(out.valid, c)
 			default:
 				ts = append(ts, fmt.Sprintf("sr %d %d %s", e.label, c.signer, c.msg.term()))
 				out.contribs = append(out.contribs, c)
@@ -506,6 +634,7 @@ func (w *c02World) render(sp c02Spec) c02Sig {
 		return out
 	}
 	out.contribs = contribs
+	out.valid = c02Attributed(contribs, out.labels)
 	ct := make([]string, len(contribs))
 	for i, c := range contribs {
 		ct[i] = c.term()
@@ -530,6 +659,7 @@ func (w *c02World) describe(obj hotstuff.QuorumSignature, blsContribs []c02Contr
 			return fmt.Sprintf("sx %d", label)
 		case c.signer == label:
 			out.contribs = append(out.contribs, c)
+			out.valid = append(out.valid, c)
 			return fmt.Sprintf("sg %d %s", label, c.msg.term())
 		}
 		out.contribs = append(out.contribs, c)
@@ -558,6 +688,7 @@ func (w *c02World) describe(obj hotstuff.QuorumSignature, blsContribs []c02Contr
 			out.term = fmt.Sprintf("(Some (QBls [%s] None))", strings.Join(lt, ";"))
 		} else {
 			out.contribs = blsContribs
+			out.valid = c02Attributed(blsContribs, out.labels)
 			ct := make([]string, len(blsContribs))
 			for i, c := range blsContribs {
 				ct[i] = c.term()
@@ -629,7 +760,7 @@ func (w *c02World) qcTruth(q *c02QC) (bool, string) {
 		return false, "block-unknown"
 	}
 	signers := map[uint64]bool{}
-	for _, c := range q.sig.contribs {
+	for _, c := range q.sig.valid {
 		if c.msg.kind == 'B' && c.msg.hash == q.hash && w.isMember(c.signer) {
 			signers[c.signer] = true
 		}
@@ -644,6 +775,21 @@ func (w *c02World) qcTruth(q *c02QC) (bool, string) {
 		return false, "view-relabelled"
 	}
 	return true, "quorum"
+}
+
+// c02Attributed: the contributions whose signer is among the labelled participants (BLS bitfield)
+func c02Attributed(cs []c02Contrib, labels []uint64) []c02Contrib {
+	in := map[uint64]bool{}
+	for _, l := range labels {
+		in[l] = true
+	}
+	var out []c02Contrib
+	for _, c := range cs {
+		if in[c.signer] {
+			out = append(out, c)
+		}
+	}
+	return out
 }
 
 func c02Distinct(l []uint64) int {
